@@ -48,12 +48,19 @@ pub fn probhat() -> &'static str {
     R.get_or_init(|| format!("{}/data/Probhat.json", repo()))
 }
 pub const SYNTHETIC: &str = "/verif/layouts/synthetic.json";
+/// A different fixed layout stored under the SAME file name as the bundled Probhat.json, in another directory.
+pub const TWIN: &str = "/verif/layouts/twin/Probhat.json";
+/// Assignments a layout author may make and that are easy to mishandle: white space only, leading/trailing white
+/// space, lone joiners, ASCII, emoji, long values (used by C04 only).
+pub const EXOTIC: &str = "/verif/layouts/exotic.json";
 
 #[derive(Clone, Copy, Debug, PartialEq, Eq, Hash, Serialize, Deserialize)]
 pub enum Layout {
     Phonetic,
     Probhat,
     Synthetic,
+    Twin,
+    Exotic,
 }
 
 impl Layout {
@@ -62,6 +69,8 @@ impl Layout {
             Layout::Phonetic => "avro_phonetic",
             Layout::Probhat => probhat(),
             Layout::Synthetic => SYNTHETIC,
+            Layout::Twin => TWIN,
+            Layout::Exotic => EXOTIC,
         }
     }
     pub fn from_index(i: usize) -> Layout {
@@ -97,6 +106,10 @@ impl Opts {
                 Layout::Probhat
             } else if s.contains('S') {
                 Layout::Synthetic
+            } else if s.contains('T') {
+                Layout::Twin
+            } else if s.contains('X') {
+                Layout::Exotic
             } else {
                 Layout::Phonetic
             },
@@ -120,6 +133,8 @@ impl Opts {
             Layout::Phonetic => {}
             Layout::Probhat => s.push('P'),
             Layout::Synthetic => s.push('S'),
+            Layout::Twin => s.push('T'),
+            Layout::Exotic => s.push('X'),
         }
         for (b, c) in [
             (self.english, 'e'),
